@@ -236,7 +236,8 @@ def parseOracle (c : Codec) (entry : String) (bytes : Bytes) (impl : String) : L
           [s!"{specProp c} {c.name}-wrong-value entry={entry} want={showVals (some vs)} got={showVals (buildAll evs)}"]
         else []
       | .truncated =>
-        if verdict == "ok" then [s!"C03 {c.name}-truncated-input-accepted entry={entry}"] else []
+        if verdict == "ok" then [s!"C03 {c.name}-truncated-input-accepted entry={entry}",
+                                 s!"{specProp c} {c.name}-text-that-ends-inside-a-value-accepted entry={entry}"] else []
       | .rejected =>
         if verdict == "ok" then [s!"{specProp c} {c.name}-invalid-or-unsupported-accepted entry={entry}"] else []
       | .undetermined => []
@@ -318,12 +319,12 @@ def chunkOracle (c : Codec) (entry : String) (impl : String) : List String :=
 
 /-- C18 on `dec` observations `<events>=<res>;…` -/
 def decOracle (c : Codec) (bytes : Bytes) (impl : String) : List String :=
-  if isBad impl then [s!"C18 {c.name}-decoder-{impl}"] else
+  if isBad impl then [s!"C18 {c.name}-decoder-{impl}", s!"C03 {c.name}-decoder-{impl}"] else
   let steps := (impl.splitOn ";").map fun s =>
     match s.splitOn "=" with
     | [e, r] => (parseEvs e, r)
     | _ => (none, "?")
-  if steps.any (fun s => isBad s.2) then [s!"C18 {c.name}-decoder-panic-or-hang"] else
+  if steps.any (fun s => isBad s.2) then [s!"C18 {c.name}-decoder-panic-or-hang", s!"C03 {c.name}-decoder-panic-or-hang"] else
   let oks := steps.takeWhile (·.2 == "ok")
   let last := (steps.drop oks.length).head?.map (·.2)
   let vals := oks.map fun s => s.1.bind build
@@ -339,8 +340,11 @@ def decOracle (c : Codec) (bytes : Bytes) (impl : String) : List String :=
   | .ok vs mr => if mr then [] else check vs "eof"
   | .undetermined => []
   | .truncated =>
-    -- complete leading values are delivered, then an error distinct from a clean end
-    if last == some "eof" then [s!"C18 {c.name}-decoder-truncated-stream-reported-as-clean-end"]
+    -- complete leading values are delivered, then an error distinct from a clean end; a
+    -- successful Next has delivered the complete events of ONE value
+    if !(vals.all fun v => v.isSome) then
+      [s!"C18 {c.name}-decoder-Next-succeeds-without-a-complete-value", s!"C03 {c.name}-decoder-truncated-value-reported-as-success"]
+    else if last == some "eof" then [s!"C18 {c.name}-decoder-truncated-stream-reported-as-clean-end"]
     else if last != some "err" then [s!"C18 {c.name}-decoder-truncated-stream-no-error last={last.getD "none"}"]
     else []
   | .rejected => if last == some "err" then [] else [s!"C18 {c.name}-decoder-accepts-invalid-stream last={last.getD "none"}"]
